@@ -88,14 +88,66 @@ def gen(rng, tier):
         yield c
         if rng.chance(0.1):
             yield {"k": "intlit", "s": base, "_tag": "intlit"}
+    yield from gen_ops(rng.fork("keyops"), n // 3)
+
+
+OPSETS = [[], [opt("MaxIdx", "0")], [opt("MaxIdx", "3")], [opt("EnableNumKeys", True)], [opt("MaxIdx", "-1")],
+          [opt("PathSep", ".")], [opt("PathSep", "."), opt("MaxIdx", "3")], [opt("PathSep", "."), opt("EnableNumKeys", True)]]
+SMALL = ["0", "1", "2", "3", "4", "5", "+2", "-0", "-1", "007", "0x2", "0b1", "0_1", "1_", "a", "a.1", "1.a", "0.0", "2.5", "a.+1"]
+
+
+def gen_ops(rng, n):
+    """the same rule seen through every path-addressed call: short histories of Set / getters / Has / Remove / CountField / Child
+    over names that spell numbers, every call with its own option set (a name stored as a key under one option set is read,
+    overwritten or removed under another)"""
+    for _ in range(n):
+        base = rng.pick(OPSETS)
+        ops = []
+        kinds = set()
+        for _ in range(2 + rng.below(7)):
+            o_opts = base if rng.chance(0.65) else rng.pick(OPSETS)
+            name = rng.pick(SMALL)
+            k = rng.wpick([(8, "set"), (6, "get"), (4, "has"), (4, "remove"), (2, "count"), (1, "setchild")])
+            o = {"op": k, "h": 0, "name": name, "idx": rng.pick([-1, -1, -1, 0, 1]), "opts": list(o_opts)}
+            if k == "set":
+                o["val"] = rng.pick([S("v"), U(7), S("w")])
+            elif k == "get":
+                o["type"] = "String"
+            elif k == "count":
+                del o["idx"]
+            elif k == "setchild":
+                o["val"] = M([("k", U(1))]); o["copts"] = []
+            ops.append(o)
+            kinds.add(k + ("" if o_opts is base else "~"))
+        init = M([]) if rng.chance(0.6) else M([(rng.pick(["1", "2", "a"]), S("i"))])
+        yield {"k": "ops", "init": init, "optsInit": list(base), "ops": ops, "_tag": "keyops",
+               "_sig": "keyops|%s|%s" % (",".join(sorted(kinds)), ",".join(x["o"] + str(x.get("v")) for x in base))}
+
+
+def oracle(case, impl, model):
+    """kind 'ops': the path model classifies a segment exactly as the statement does (Props/C20: parseField_index_iff,
+    parseField_name_otherwise), so a history on which the implementation leaves the model is a history on which some call did
+    not apply the rule"""
+    if case.get("k") != "ops":
+        return None
+    from .. import common as C
+    if C.unsupported(model) or not isinstance(impl, dict) or not isinstance(model, dict):
+        return None
+    if C.same(model, impl):
+        return (True, "")
+    return (False, "a path-addressed call did not classify its name by the rule (result differs from the path model under the same options)")
 
 
 def nontrivial(case, impl):
     import re
+    if case.get("k") == "ops":
+        return True
     return bool(re.search(r"\d", case.get("key", case.get("s", ""))))
 
 
 def sig(case, impl):
+    if case["k"] == "ops":
+        return case.get("_sig", "ops")
     if case["k"] == "intlit":
         r = (impl or {}).get("ok") or {}
         return "intlit/%s/%s/%s" % (lit_class(case["s"]), r.get("int") is not None, r.get("uint") is not None)
